@@ -14,8 +14,10 @@ RULE = ('trim: for every subset of the four borders a raster (1..7 x 1..7, incl.
         'whose kept cells span a window touching exactly those borders, exclusion sets {default (nan,), (0,), (0.0,nan), '
         '(nan,inf), two/three numbers, lists}, plus fully random rasters and all-excluded rasters (outside the premise: '
         'correspondence only); crop: the same layouts for the listed zone ids on a zones raster, values raster of the same '
-        'shape (and a few smaller ones: positional clamped slice); coordinates are random increasing/decreasing dyadic '
-        'numbers, attrs a small dict. Thorough tier adds every raster over {0,1,NaN} up to 3x3 for three exclusion sets. '
+        'shape (and a few smaller ones: positional clamped slice), id lists with several ids up to 20, unsorted / repeated / far apart '
+        '([1,8], (8,1), [8,1,8], (17,8,1), ...); index coordinates are random increasing/decreasing dyadic numbers and most rasters '
+        'also carry non-index coordinates (scalar spatial_ref/band, 2-D lon(y,x), 1-D auxiliary coords along y and x) — ALL coordinates '
+        'of the result are compared with the original restricted to the window; attrs a small dict. Thorough tier adds every raster over {0,1,NaN} up to 3x3 for three exclusion sets. '
         'A case is non-trivial when at least one cell is kept and at least one is excluded.')
 TRUSTED = [
     'finite cell values / exclusion values / coordinates of one case are embedded into Z by a common power-of-two scale '
@@ -73,13 +75,22 @@ def build_values(vals, as_int, kind):
     return tuple(vs) if kind == 'tuple' else list(vs)
 
 
-def build_raster(data, dtype, ys, xs, attrs=None):
+def build_raster(data, dtype, ys, xs, attrs=None, aux=True):
+    """2-D raster with index coordinates y/x and (aux=True) the non-index coordinates real rasters carry:
+    scalar spatial_ref / band, a 2-D lon(y, x), and 1-D auxiliary coordinates along y and along x."""
     a = np.array(data, dtype='float64')
     if a.ndim != 2:
         a = a.reshape(len(data), len(xs))
     a = a.astype(dtype)
-    return xr.DataArray(a, dims=['y', 'x'], coords={'y': np.array(ys, dtype='float64'), 'x': np.array(xs, dtype='float64')},
-                        attrs=dict(attrs or {'res': 1, 'unit': 'm'}), name='src')
+    rows, cols = a.shape
+    coords = {'y': np.array(ys, dtype='float64'), 'x': np.array(xs, dtype='float64')}
+    if aux:
+        coords['spatial_ref'] = 32633
+        coords['band'] = 1
+        coords['lon'] = (('y', 'x'), np.arange(rows * cols, dtype='float64').reshape(rows, cols) / 4.0 - 3.0)
+        coords['row_id'] = (('y',), 1000 + np.arange(rows))
+        coords['col_w'] = (('x',), 0.5 * np.arange(cols) + 7.0)
+    return xr.DataArray(a, dims=['y', 'x'], coords=coords, attrs=dict(attrs or {'res': 1, 'unit': 'm'}), name='src')
 
 
 def listed(v, vals, nan_aware):
@@ -120,11 +131,22 @@ def check_window_oracle(ctx, what, case, res, src, win, key=None):
         for j, (g, e) in enumerate(zip(rg, re_)):
             if not same_val(g, e):
                 return bad('cell (%d,%d) of the result is %r, the original at (%d,%d) is %r' % (i, j, g, t + i, l + j, e))
-    sy = coords_of(src, 'y')
-    sx = coords_of(src, 'x')
-    if coords_of(res, 'y') != sy[t:b + 1] or coords_of(res, 'x') != sx[l:r + 1]:
-        return bad('coordinates y=%r x=%r are not the original ones %r / %r' % (
-            coords_of(res, 'y'), coords_of(res, 'x'), sy[t:b + 1], sx[l:r + 1]))
+    # every coordinate of the original (index, scalar, auxiliary 1-D, 2-D), restricted to the window by position
+    win_slice = {'y': slice(t, b + 1), 'x': slice(l, r + 1)}
+    missing = sorted(set(map(str, src.coords)) - set(map(str, res.coords)))
+    extra = sorted(set(map(str, res.coords)) - set(map(str, src.coords)))
+    if missing or extra:
+        return bad('coordinates of the original are not carried by the result: missing %r, unexpected %r' % (missing, extra),
+                   missing=missing, unexpected=extra)
+    for cname in src.coords:
+        c = src.coords[cname]
+        expc = np.asarray(c.values)[tuple(win_slice[d] for d in c.dims)]
+        gotc = res.coords[cname]
+        same = tuple(gotc.dims) == tuple(c.dims) and np.asarray(gotc.values).shape == expc.shape and \
+            bool(np.all((np.asarray(gotc.values) == expc) | ((expc != expc) & (np.asarray(gotc.values) != np.asarray(gotc.values)))))
+        if not same:
+            return bad('coordinate %r of the result %r (dims %r) is not the original restricted to the window: %r' % (
+                str(cname), np.asarray(gotc.values).tolist(), tuple(gotc.dims), expc.tolist()), coordinate=str(cname))
     if dict(res.attrs) != dict(src.attrs) or tuple(res.dims) != tuple(src.dims) or res.dtype != src.dtype:
         return bad('attrs/dims/dtype changed: %r %r %r' % (dict(res.attrs), res.dims, res.dtype))
     return True
@@ -134,7 +156,7 @@ def check_window_oracle(ctx, what, case, res, src, win, key=None):
 def run_trim(ctx, zonal, case):
     """returns (model_line, expectation tuple for the correspondence) or None"""
     vals = case['values']
-    src = build_raster(case['data'], case['dtype'], case['ys'], case['xs'])
+    src = build_raster(case['data'], case['dtype'], case['ys'], case['xs'], aux=case.get('aux', True))
     data = to_floats(src.data)
     try:
         if vals is None:
@@ -171,11 +193,11 @@ def run_trim(ctx, zonal, case):
 
 def run_crop(ctx, zonal, case):
     ids = case['values']
-    zones = build_raster(case['data'], case['dtype'], case['ys'], case['xs'])
+    zones = build_raster(case['data'], case['dtype'], case['ys'], case['xs'], aux=case.get('aux', True))
     vshape = case.get('vshape') or [len(case['data']), len(case['xs'])]
     vy, vx = case['ys'][:vshape[0]], case['xs'][:vshape[1]]
     vdata = [row[:vshape[1]] for row in case['vdata'][:vshape[0]]]
-    values = build_raster(vdata, case['vdtype'], vy, vx, attrs={'layer': 'values', 'k': 3})
+    values = build_raster(vdata, case['vdtype'], vy, vx, attrs={'layer': 'values', 'k': 3}, aux=case.get('aux', True))
     zdata = to_floats(zones.data)
     fids = [float(v) for v in ids]
     try:
@@ -261,6 +283,10 @@ EXCL_SETS = [
 ID_SETS = [
     ([1], True, 'tuple'), ([1, 3], True, 'tuple'), ([2.0], False, 'tuple'), ([0], True, 'list'),
     ([1, 2, 3], True, 'tuple'), ([1.0, NAN], False, 'tuple'), ([2.5, 1.0], False, 'tuple'),
+    # several ids, unsorted / repeated / far apart (order or multiplicity of the list must not matter)
+    ([1, 8], True, 'list'), ([8, 1], True, 'tuple'), ([8, 1, 8], True, 'list'), ([1, 17], True, 'tuple'),
+    ([17, 8], True, 'tuple'), ([1, 8, 17], True, 'tuple'), ([17, 8, 1], True, 'list'), ([0, 1, 8, 17], True, 'tuple'),
+    ([12.0, 3.0], False, 'tuple'), ([20, 5, 11], True, 'tuple'), ([9, 16], True, 'tuple'),
 ]
 
 
@@ -281,6 +307,10 @@ def cell_pools(vals, dtype, want_listed_nan_aware):
         cands += [NAN, float('inf'), 1.5, 2.5, -1.0, -0.0]
     elif not dtype.startswith('u'):
         cands += [-1.0]
+    for v in vals:      # every listed number the dtype can hold is a possible cell value
+        if not isnan(v) and not math.isinf(v) and (isf or v == int(v)) and not (dtype.startswith('u') and v < 0) \
+                and not any(v == c for c in cands):
+            cands.append(float(v))
     inn = [v for v in cands if listed(v, vals, want_listed_nan_aware)]
     out = [v for v in cands if not listed(v, vals, want_listed_nan_aware)]
     return inn, out
@@ -361,7 +391,7 @@ def gen_cases(ctx, fn, n_per_subset):
                     data = [[rng.choice(inside + outside) for _ in range(cols)] for _ in range(rows)]
                     fam = 'random'
             case = dict(fn=fn, dtype=dtype, data=data, values=vals, as_int=as_int, kind=kind,
-                        ys=rand_coords(rng, rows), xs=rand_coords(rng, cols))
+                        ys=rand_coords(rng, rows), xs=rand_coords(rng, cols), aux=(i % 4 != 0))
             if fn == 'crop':
                 case['vdtype'] = rng.choice(['float64', 'int32', 'float32'])
                 case['vdata'] = [[float(rng.randint(0, 99)) for _ in range(cols)] for _ in range(rows)]
@@ -383,7 +413,7 @@ def gen_cases(ctx, fn, n_per_subset):
             pool = (out if empty and out else inn + out)
         data = [[rng.choice(pool) for _ in range(cols)] for _ in range(rows)]
         case = dict(fn=fn, dtype=dtype, data=data, values=vals, as_int=as_int, kind=kind,
-                    ys=rand_coords(rng, rows), xs=rand_coords(rng, cols))
+                    ys=rand_coords(rng, rows), xs=rand_coords(rng, cols), aux=(j % 3 != 0))
         if fn == 'crop':
             case['vdtype'] = 'float64'
             case['vdata'] = [[float(rng.randint(0, 99)) for _ in range(cols)] for _ in range(rows)]
@@ -428,7 +458,7 @@ def run_cases(ctx, gen):
 def run(ctx):
     n = 14 if ctx.quick() else 80
     run_cases(ctx, gen_cases(ctx, 'trim', n))
-    run_cases(ctx, gen_cases(ctx, 'crop', max(2, n // 2)))
+    run_cases(ctx, gen_cases(ctx, 'crop', n if ctx.quick() else n // 2))
     if not ctx.quick():
         run_cases(ctx, gen_exhaustive(ctx))
     ctx.exhaustive = False
@@ -449,7 +479,7 @@ def search(ctx):
 def replay_case(ctx, case):
     zonal = _impl()
     case = {k: v for k, v in case.items() if k in ('fn', 'dtype', 'data', 'values', 'as_int', 'kind', 'ys', 'xs',
-                                                   'vdtype', 'vdata', 'vshape')}
+                                                   'vdtype', 'vdata', 'vshape', 'aux')}
 
     def unjson(v):
         return {'nan': NAN, 'inf': float('inf'), '-inf': float('-inf')}.get(v, v) if isinstance(v, str) else v
